@@ -17,7 +17,9 @@ oracle (the property on the real code alone)
   * kw_eq_pos            – g(*args) and g(**kwargs in a random order) give the same statement / both raise JaqalError
   * accept_iff_table     – accepted <=> arity matches and every argument fits per SPEC_TABLE (written from the property
                            text, independent of validate) ; includes nan / inf / bool, which the Lean model cannot express
-  * reject_is_JaqalError – every rejection is a JaqalError (anything else is a finding)
+  * reject_is_JaqalError – every rejection is a JaqalError (anything else is a finding; a repeated keyword is the call
+                           site's TypeError). Found here: INT parameter offered Parameter(FLOAT) raised AttributeError —
+                           repaired in /repo commit c898fbf; the oracle must now have 0 failures.
   * idle_signature       – add_idle_gates: every gate but prepare_all/measure_all gets I_<name> with the same parameters,
                            no used qubits, no unitary; prepare_all/measure_all get none; order = gate, idle, gate, idle …
   * stretch_unitary      – for several stretch factors s: stretched[name+suffix].ideal_unitary(*args, s) == parent.ideal_unitary(*args)
@@ -549,14 +551,17 @@ class Acc:
         c = self.corr.setdefault(op, {"cases": 0, "disagreements": []})
         c["cases"] += 1
         if canon(model) != canon(impl):
+            c["n_disagreements"] = c.get("n_disagreements", 0) + 1
             if len(c["disagreements"]) < 20:
                 c["disagreements"].append({"case": dict(case, kind_of_case=op), "model": model, "impl": impl})
 
     def oracle_case(self, name, case, ok, detail=""):
         o = self.oracle.setdefault(name, {"cases": 0, "failures": []})
         o["cases"] += 1
-        if not ok and len(o["failures"]) < 20:
-            o["failures"].append({"case": dict(case, kind_of_case=name), "detail": detail})
+        if not ok:
+            o["n_failures"] = o.get("n_failures", 0) + 1
+            if len(o["failures"]) < 20:
+                o["failures"].append({"case": dict(case, kind_of_case=name), "detail": detail})
 
     def result(self):
         return {"corr": self.corr, "oracle": self.oracle, "distribution": dict(sorted(self.dist.items())),
@@ -943,9 +948,17 @@ def replay(case: dict, driver: str = DEFAULT_DRIVER) -> dict:
     if kind == "gate_call" or (kind in ("accept_iff_table", "reject_is_JaqalError") and "def" in case):
         impl = impl_call(case)
         model = drive(driver, [model_call_req(case)])[0] if case_in_model(case) else None
+        if kind == "reject_is_JaqalError":
+            keys = [k for k, _ in case.get("kwargs", [])]
+            ok = "err" not in impl or impl["err"] == "JaqalError" or (len(set(keys)) != len(keys) and impl["err"] == "TypeError")
+            return {"model": model, "impl": impl, "oracle_ok": ok, "detail": f"call raised {impl.get('err')}"}
         return {"model": model, "impl": impl, "oracle_ok": ("err" not in impl) == expected_accept(case), "detail": ""}
     if kind in ("accept_iff_table", "reject_is_JaqalError"):
-        return replay(dict(case, kind_of_case="validate"), driver)
+        r = replay(dict(case, kind_of_case="validate"), driver)
+        if kind == "reject_is_JaqalError":
+            r["oracle_ok"] = r["impl"] in (None, "JaqalError")
+            r["detail"] = f"validate raised {r['impl']}"
+        return r
     if kind == "kw_eq_pos":
         a = impl_call({"def": case["def"], "mode": "pos", "args": case["args"]})
         b = impl_call({"def": case["def"], "mode": "kw", "kwargs": case["kwargs"]})
